@@ -7,7 +7,7 @@ ID = 'C19'
 COQ_TARGETS = ['Props/Properties_C19.vo']
 PROPS_FILES = ['Props/Properties_C19.v']
 SHRINK_FROM = 2
-THEOREMS = ['C19_tx', 'C19_tx_exact', 'C19_tx_checker', 'C19_tx_unrepaired_refuted', 'C19_rx_content', 'C19_rx_fail', 'C19_rx_readbin']
+THEOREMS = ['C19_tx', 'C19_tx_exact', 'C19_tx_checker', 'C19_tx_unrepaired_refuted', 'C19_rx_content', 'C19_rx_fail', 'C19_rx_unrepaired_refuted', 'C19_rx_readbin']
 ENGINES = [dict(name='bdat', c_sources=['bdat_h.c', 'bdat_rx.c', 'bdat_net.c'], extract='Extract/Extract_bdat.v', driver='bdat_driver.ml',
                 accepts=lambda c: c.startswith('aa ') or c.startswith('bb '))]
 RULE = ('tx cases = (chunk size, message[, number of positive intermediate replies]) for the real send_bdat: every message of <= 5 '
@@ -24,7 +24,7 @@ RULE = ('tx cases = (chunk size, message[, number of positive intermediate repli
         'distinct by case text')
 TRUSTED_BASE = [
     'Coq 8.16.1 kernel (coqc; coqchk in thorough); vm_compute in the non-vacuity / refutation examples and two digit-count facts (ndigits 99, 159); no native_compute',
-    'axioms: none (Print Assumptions: Closed under the global context for all seven theorems)',
+    'axioms: none (Print Assumptions: Closed under the global context for all eight theorems)',
     'translator tools/translators/bdat.py: regexes over qremote/qrbdat.c, lib/fmt.c, qsmtpd/data.c, lib/netio.c produce the constants in '
     'coq/Gen/GenBdat.v and GenBdatRx.v (reserve 12, margins, "BDAT ", " LAST\\r\\n", the LF-skip bound, buffer sizes) and check the statement '
     'shapes the models transcribe (a restructured function is reported as a broken tie)',
